@@ -277,6 +277,73 @@ def run_scheme(ci, rel, cls, cfg):
     return res
 
 
+def rule_helpers_declared(chk, ci):
+    """A Python helper function called from an equation hook is transpiled only when the class lists it in _get_helpers_(): otherwise the generated module calls an
+    undefined name and cannot be built.  For every equation class: the repository Python functions its hooks call (resolved through the module's imports) are listed."""
+    import os
+    n = 0
+    for rel, cls in EI.equations():
+        hooks = EI.resolved_hooks(ci, rel, cls, EI.HOOKS)
+        need = {}
+        for h, (r2, c2, fn) in hooks.items():
+            if h in ('reduce', 'py_initialize'):
+                continue                      # run in Python
+            imp = ci.imports.get(r2, {})
+            t2 = ci.trees.get(r2)
+            local = set(f.name for f in t2.body if isinstance(f, ast.FunctionDef)) if t2 is not None else set()
+            for c in M.calls(fn):
+                if not isinstance(c.func, ast.Name):
+                    continue
+                nm = c.func.id
+                if nm in ('declare', 'printf', 'cast', 'annotate'):
+                    continue              # compyle language primitives (modules may define same-named stubs to silence editors)
+                if nm in local:
+                    need.setdefault(nm, (h, fn, r2))
+                elif nm in imp and imp[nm][1]:
+                    mrel = imp[nm][0].replace('.', '/') + '.py'
+                    if os.path.exists(os.path.join(M.REPO, mrel)):
+                        try:
+                            mt = M.py(mrel)
+                        except Exception:
+                            continue
+                        if any(isinstance(f, ast.FunctionDef) and f.name == imp[nm][1] for f in mt.body):
+                            need.setdefault(nm, (h, fn, r2))
+        if not need:
+            continue
+        listed = set()
+        gh = ci.lookup_method(rel, cls, '_get_helpers_')
+        if gh is not None:
+            r3, c3, f3 = gh
+            t3 = ci.trees.get(r3)
+            consts = dict((U(a.targets[0]), a.value) for a in (t3.body if t3 is not None else []) if isinstance(a, ast.Assign) and len(a.targets) == 1)
+            for r_ in ast.walk(f3):
+                if isinstance(r_, ast.Return) and r_.value is not None:
+                    for x in ast.walk(r_.value):
+                        if isinstance(x, ast.Name):
+                            listed.add(x.id)
+                            if x.id in consts:
+                                listed |= set(y.id for y in ast.walk(consts[x.id]) if isinstance(y, ast.Name))
+                            imp3 = ci.imports.get(r3, {}).get(x.id)
+                            if imp3 and imp3[1]:
+                                # a list constant imported from another module (HELPERS)
+                                mrel3 = imp3[0].replace('.', '/') + '.py'
+                                if os.path.exists(os.path.join(M.REPO, mrel3)):
+                                    for a3 in M.py(mrel3).body:
+                                        if isinstance(a3, ast.Assign) and len(a3.targets) == 1 and U(a3.targets[0]) == imp3[1]:
+                                            listed |= set(y.id for y in ast.walk(a3.value) if isinstance(y, ast.Name))
+        for nm, (h, fn, r2) in sorted(need.items()):
+            n += 1
+            chk.decide(nm in listed, 'helpers-declared', '%s:%s' % (cls.name, nm), node=fn, file=r2, func='%s.%s' % (cls.name, h),
+                       detail_bad='%s.%s calls the Python helper %s(), which %s._get_helpers_() does not list (%s): the helper is not transpiled, the generated extension calls an '
+                                  'undefined name and does not build whenever no other equation of the problem happens to bring it along' % (cls.name, h, nm, cls.name, sorted(listed)),
+                       detail_ok='listed in _get_helpers_')
+    chk.floor('helper calls in equation hooks', n, 10)
+
+
+def U(n_):
+    return M.unparse(n_)
+
+
 def main(chk):
     chk.explanation = ('Each obligation is one (scheme, constructed class, role, side) construction site - or one missing name at such a site - evaluated over every '
                        'configuration the scheme\'s own set-up code distinguishes: the d_*/s_* hook arguments of the class must be properties or constants the '
@@ -285,6 +352,13 @@ def main(chk):
                        'adding its properties in setup_properties shows up for exactly the combinations that need it.')
     ci = EI.index()
     schemes = scheme_classes(ci)
+    rule_helpers_declared(chk, ci)
+    # a complete configuration is not rejected: each array is validated against its own stepper only (rule shared with C20)
+    import importlib.util
+    spec20 = importlib.util.spec_from_file_location('c20mod', os.path.join(os.path.dirname(os.path.abspath(__file__)), 'c20.py'))
+    c20 = importlib.util.module_from_spec(spec20)
+    spec20.loader.exec_module(c20)
+    c20.rule_stepper_check_scope(chk)
     chk.floor('Scheme subclasses', len(schemes), 17)
     total_cfg = 0
     total_sites = 0
